@@ -28,6 +28,12 @@ def main():
                 sys.exit(rc)
             try:
                 mod.run(ctx)
+                if ctx.thorough and not any(o[0].startswith('leanchecker') for o in ctx.obligations):
+                    # independent re-check of the compiled property modules (every property, thorough tier)
+                    pdir = os.path.join(common.LEAN, 'Smtb', 'Properties')
+                    mods = sorted('Smtb.Properties.' + f[:-5] for f in os.listdir(pdir) if f.startswith(prop) and f.endswith('.lean'))
+                    if mods:
+                        common.leanchecker(ctx, mods)
                 common.write_evidence(ctx, 0)
                 for l in ctx.known_lines:
                     print(l)
